@@ -350,8 +350,10 @@ void Kernel::start_script(Proc *p, int spec) {
 // ------------------------------------------------------------------ main loop
 void Kernel::run() {
   std::vector<int> cand;
+  uint64_t iters = 0;
   for (;;) {
     if (capped || !fatal.empty()) break;
+    if (++iters > 4000000) { capped = true; break; }
     cand.clear();
     bool all_done = true;
     for (Thread *t : threads) {
